@@ -751,3 +751,27 @@ Section GlueMulti.
     - intros k Hk0. apply Hsig. exact Hk0.
   Qed.
 End GlueMulti.
+
+(* ================================================================ keystore blob *)
+
+Lemma be_value_zeros_app : forall k d, be_value (repeat 0 k ++ d) = be_value d.
+Proof.
+  intros k d. unfold be_value. rewrite fold_left_app. f_equal.
+  induction k as [|k IH]; [reflexivity|]. cbn [repeat fold_left]. exact IH.
+Qed.
+
+(* saving and reloading an account keeps the private scalar, whatever the
+   length of D.Bytes() *)
+Theorem keystore_blob_roundtrip : forall xy d,
+  length xy = 64%nat -> (length d <= 32)%nat ->
+  length (blob_priv (key_blob xy d)) = 32%nat /\ be_value (blob_priv (key_blob xy d)) = be_value d.
+Proof.
+  intros xy d Hxy Hd. unfold blob_priv, key_blob.
+  replace (firstn 64 xy) with xy by (rewrite <- Hxy; symmetry; apply firstn_all).
+  set (R := repeat 0 (32 - length d) ++ d).
+  assert (Hl : length R = 32%nat) by (unfold R; rewrite app_length, repeat_length; lia).
+  replace (skipn 64 (xy ++ R)) with R
+    by (rewrite <- Hxy, skipn_app, skipn_all, Nat.sub_diag; reflexivity).
+  replace (firstn 32 R) with R by (rewrite <- Hl; symmetry; apply firstn_all).
+  split; [exact Hl|apply be_value_zeros_app].
+Qed.
